@@ -67,7 +67,9 @@ Mirror(S) == [i \in 1..Len(S) |-> [k |-> IF S[i].k = "H" THEN "C" ELSE "H", lo |
 
 Variants(S, z, lo) ==
   << [g |-> "perm", S |-> Rev(S), z |-> Rev(z), lo |-> lo] >>
-  \o (IF Wide(S) # {} THEN << [g |-> "split"] @@ SplitAt(S, z, Min(Wide(S))) @@ [lo |-> lo] >> ELSE <<>>)
+  \* the two pieces keep the parent's NAME (twin = position of the first piece; the harness also calls the stream after them
+  \* "<name>_2", the key a renamed duplicate would like to take: seeded change C12h)
+  \o (IF Wide(S) # {} THEN << [g |-> "split"] @@ SplitAt(S, z, Min(Wide(S))) @@ [lo |-> lo, twin |-> Min(Wide(S))] >> ELSE <<>>)
   \* cut off the lattice (lo + 130): the cut adds a table row of its own (seed C12e)
   \o (IF Wide(S) # {} THEN << [g |-> "split2"] @@ SplitAtBy(S, z, Max(Wide(S)), 130) @@ [lo |-> lo] >> ELSE <<>>)
   \o (IF Thick(S) # {} THEN << [g |-> "parallel"] @@ Parallel(S, z, Min(Thick(S))) @@ [lo |-> lo] >> ELSE <<>>)
